@@ -136,6 +136,12 @@ def trace_validate(rep, n, seed_off=100, length=16):
   from ginverif import drivers_core
   rng = random.Random(rep.seed * 9973 + seed_off)
   traces = [drivers_core.drive(rng, length) for _ in range(n)]
+  for t in traces:
+    if t.get('reg_failed'):
+      rep.violation(dict(kind='registration-rejected', module='GinCore', status=sorted(set(t['reg_failed'].values()))),
+                    dict(kind='core-registration', reg=t['reg'], got=t['reg_failed']))
+  traces = [t for t in traces if not t.get('reg_failed')]
+  n = len(traces)
   batch = 150
   for i in range(0, n, batch):
     chunk = traces[i:i + batch]
